@@ -139,7 +139,7 @@ def run(ctx):
     cands = []
     for bb, t in fnew.calls():
         p = t["fn"].get("path", "")
-        if callee_name(p) == "eq" and "str" in p:
+        if callee_name(p) == "eq" and ("str" in p or "cmp::impls" in p):      # `match key { "seed" => ..}` and `if key == "seed"` alike
             a = fev.call_args(bb)
             lit = [x[1] for x in a if x[0] == "str"]
             other = [x for x in a if x[0] != "str"]
